@@ -171,7 +171,9 @@ pub(super) fn idls(
                 account_set_defs[0].clone()
             } else {
                 quote! {
-                    let source = #prelude::item_source::<Self>();
+                    // The full type name, generic arguments included: two instantiations of a generic
+                    // account set are two different sets and must not share one definition.
+                    let source = ::std::any::type_name::<Self>().to_string();
                     let account_set_def = #prelude::IdlAccountSetDef::Struct(vec![
                         #(
                             #prelude::IdlAccountSetStructField {
